@@ -35,6 +35,10 @@ USES = [
     ['redef'], ['omit-end'], ['brace-end'], ['infoot'], ['nested-foot'],
 ]
 LAYOUTS = ['lines', 'indented']
+# where the uses stand: (name, text before, text after, generated text behind)
+WRAPS = [('top', '', '', None), ('arg', '\\xxx{', '}', None), ('item', '\\begin{itemize}\\item ', '\\end{itemize}', None),
+         ('heading', '\\section{', '}', '.'), ('group', '{', '}', None)]
+PAIR_USES = [[a, b] for a in ('brace', 'tok', 'opt', 'omit', 'nested') for b in ('brace', 'opt', 'emptyopt', 'omit', 'nested')]
 ROUTES = ['doc', 'defs', 'ltinput']
 
 
@@ -81,11 +85,14 @@ class Model:
 
 
 def build(case):
-    bi, definer, ui, layout = case
+    bi, definer, ui, layout = case[:4]
+    wrap = WRAPS[case[4]] if len(case) > 4 else WRAPS[0]
     body, n, default, items = BODIES[bi]
     if definer == 'def' and default is not None:
         return None
-    uses = USES[ui]
+    uses = USES[ui] if ui >= 0 else PAIR_USES[-ui - 1]
+    if wrap[0] != 'top' and any(u in ('redef', 'omit-end', 'brace-end', 'before') for u in uses):
+        return None
     has_opt = default is not None
     if any(u in ('opt', 'emptyopt', 'omit', 'omit-end') for u in uses) and not has_opt:
         return None
@@ -175,6 +182,10 @@ def build(case):
         ctx.detached += d
 
     ctx.word()
+    ctx.w(' ')
+    wnode = ctx.open('wrap-' + wrap[0], ('wsgen',))
+    ctx.w(wrap[1])
+    ctx.word()
     for u in uses:
         ctx.w(' ')
         if u == 'nested':
@@ -223,7 +234,15 @@ def build(case):
             ctx.w(' ')
             ctx.word()
     if not ctx.facts.get('ends_with_use'):
+        ctx.w(wrap[2])
+        if wrap[3]:
+            ctx.gen(wrap[3], wnode)
+        ctx.close()
+        ctx.w(' ')
+        ctx.word()
         ctx.w('\n')
+    else:
+        ctx.close()
     return ctx, dtxt
 
 
@@ -295,7 +314,7 @@ class C09:
         os.chdir(d)
 
     def bounds(self, tier):
-        return {'bodies': [b[0] for b in BODIES], 'definers': DEFINERS, 'use_shapes': USES, 'definition_layouts': LAYOUTS,
+        return {'bodies': [b[0] for b in BODIES], 'definers': DEFINERS, 'use_shapes': USES, 'pairs_of_uses': len(PAIR_USES), 'contexts_of_the_uses': [w[0] for w in WRAPS], 'definition_layouts': LAYOUTS,
                 'routes': ROUTES}
 
     def cases(self, tier, seed):
@@ -304,10 +323,16 @@ class C09:
                 for ui in range(len(USES)):
                     for layout in LAYOUTS:
                         yield [bi, definer, ui, layout]
+                for ui in range(len(USES)):
+                    for wi in range(1, len(WRAPS)):
+                        yield [bi, definer, ui, 'lines', wi]
+                for pi in range(len(PAIR_USES)):
+                    for wi in range(len(WRAPS) if tier != 'quick' else 2):
+                        yield [bi, definer, -pi - 1, 'lines' if (pi + wi) % 2 else 'indented', wi]
 
     def judge(self, case):
-        bi, definer, ui, layout = case
-        built = build_before(case) if USES[ui] == ['before'] else build(case)
+        bi, definer, ui, layout = case[:4]
+        built = build_before(case[:4]) if ui >= 0 and USES[ui] == ['before'] and len(case) == 4 else build(case)
         if built is None:
             return {'viol': [], 'out': 'skip', 'nt': False, 'tr': 1, 'cnt': {'skipped: shape does not apply to this definition': 1}}
         ctx, dtxt = built
@@ -315,7 +340,7 @@ class C09:
         flows = ctx.flows()
         viol = []
         results = {}
-        tag = '%s:%s:%s' % (BODIES[bi][0], definer, '+'.join(USES[ui]))
+        tag = '%s:%s:%s' % (BODIES[bi][0], definer, '+'.join(USES[ui] if ui >= 0 else PAIR_USES[-ui - 1]))
         with open('ymcdefs.tex', 'w') as f:
             f.write(dtxt)
         for route in ROUTES:
@@ -375,7 +400,7 @@ class C09:
         return {'viol': viol[:3], 'out': [results.get('doc'), results.get('defs')], 'nt': nt, 'tr': 1}
 
     def explain(self, case):
-        built = build_before(case) if USES[case[2]] == ['before'] else build(case)
+        built = build_before(case[:4]) if case[2] >= 0 and USES[case[2]] == ['before'] and len(case) == 4 else build(case)
         if not built:
             return 'shape does not apply'
         ctx, dtxt = built
